@@ -295,7 +295,7 @@ class Ctx:
         self.log.append("go test %s: rc=%d %.1fs" % (run, rc, time.time() - t))
         return rc, out, outdir
 
-    def go_test_parallel(self, run, cases, nproc=8, pkg=".", env=None, timeout=600, name="par", only=None):
+    def go_test_parallel(self, run, cases, nproc=8, pkg=".", env=None, timeout=600, name="par", only=None, extra_files=None):
         """Build the harness test binary once (go test -c), deal the lines of the case file `cases`
         to nproc processes, run them in parallel, and merge their trace.ndjson files into one
         (trace numbers re-based). Returns (rc, output, merged trace path, [summary dicts])."""
@@ -335,28 +335,33 @@ class Ctx:
             res = list(ex.map(one, range(nproc)))
         rc = max(r[0] for r in res)
         out = "\n".join(r[1][-4000:] for r in res if r[0] != 0) or "ok"
-        merged = os.path.join(outdir, "trace.ndjson")
-        base = 0
+        def merge(fname):
+            merged_p = os.path.join(outdir, fname)
+            base = 0
+            with open(merged_p, "w") as mf:
+                for _, _, d in res:
+                    tp = os.path.join(d, fname)
+                    if not os.path.exists(tp):
+                        continue
+                    mx = 0
+                    with open(tp) as f:
+                        for line in f:
+                            if '"ev":"end"' in line[:40]:
+                                continue
+                            m = re.match(r'\{"t":(\d+),', line)
+                            t = int(m.group(1))
+                            mx = max(mx, t)
+                            mf.write('{"t":%d,' % (t + base) + line[m.end():])
+                    base += mx
+                mf.write('{"t":%d,"i":1,"ev":"end"}\n' % (base + 1))
+            return merged_p
+        merged = merge("trace.ndjson")
+        self.extra_traces = {fn: merge(fn) for fn in (extra_files or [])}
         sums = []
-        with open(merged, "w") as mf:
-            for _, _, d in res:
-                tp = os.path.join(d, "trace.ndjson")
-                if not os.path.exists(tp):
-                    continue
-                mx = 0
-                with open(tp) as f:
-                    for line in f:
-                        if '"ev":"end"' in line[:40]:
-                            continue
-                        m = re.match(r'\{"t":(\d+),', line)
-                        t = int(m.group(1))
-                        mx = max(mx, t)
-                        mf.write('{"t":%d,' % (t + base) + line[m.end():])
-                base += mx
-                sp = os.path.join(d, "summary.json")
-                if os.path.exists(sp):
-                    sums.append(json.load(open(sp)))
-            mf.write('{"t":%d,"i":1,"ev":"end"}\n' % (base + 1))
+        for _, _, d in res:
+            sp = os.path.join(d, "summary.json")
+            if os.path.exists(sp):
+                sums.append(json.load(open(sp)))
         try:
             os.remove(binp)
         except OSError:
